@@ -81,6 +81,11 @@ def _wreset(spec_json):
     return spec_json, tuple(rs), len(st.regs), st.sig
 
 
+def ghash(iv):
+    """must equal GHash of specs/common/GraphLookup.tla"""
+    return sum((int(x) % 65536) * ((((i + 1) * 7919 + 13) % 1009) + 1) for i, x in enumerate(iv))
+
+
 class NoHint:
     """default context hint: every requested input vector is tried in every state"""
     def init(self, cfg):
@@ -126,7 +131,7 @@ class GraphLoop:
     def __init__(self, module, factory_path, duts, invariants, properties=(), constants=None,
                  workers=None, shim=True, spec_budget=60000, max_rounds=40, tlc_timeout=3600,
                  constraint=None, log=print, extra_cfg="", heap="12g", scratch=None,
-                 action_constraints=(), check_deadlock=False, spec_batch=2000, hint=None, spec_name=None, alias="Alias", total_budget=900000, tlc_workers=4):
+                 action_constraints=(), check_deadlock=False, spec_batch=2000, hint=None, spec_name=None, alias="Alias", total_budget=900000, tlc_workers=4, fmt="record"):
         """duts: list of (spec dict for the python factory, cfg dict passed to TLA+)"""
         self.module = module
         self.factory_path = factory_path
@@ -139,6 +144,7 @@ class GraphLoop:
         self.spec_budget = spec_budget
         self.total_budget = total_budget
         self.tlc_workers = tlc_workers
+        self.fmt = fmt
         self.max_rounds = max_rounds
         self.tlc_timeout = tlc_timeout
         self.log = log
@@ -173,8 +179,20 @@ class GraphLoop:
         duts = []
         for g in self.duts:
             succ = []
-            for e in g.succ:
-                succ.append({k: {"o": list(o), "d": d} for k, (o, d) in e.items()})
+            if self.fmt == "hash":
+                # buckets by GHash (specs/common/GraphLookup.tla): constant-time lookup in TLC
+                for e in g.succ:
+                    nb = max(1, len(e))
+                    row = [[] for _ in range(nb)] if e else []
+                    for k, (o, d) in e.items():
+                        iv = g.alphabet.get(k)
+                        if iv is None:
+                            iv = tuple(int(x) for x in k.strip("<>").split(",")) if k.strip("<>").strip() else ()
+                        row[ghash(iv) % nb].append([list(iv), list(o), d])
+                    succ.append(row)
+            else:
+                for e in g.succ:
+                    succ.append({k: {"o": list(o), "d": d} for k, (o, d) in e.items()})
             duts.append({"cfg": g.cfg, "succ": succ})
         with open(path, "w") as f:
             json.dump({"duts": duts}, f, separators=(",", ":"))
